@@ -44,6 +44,10 @@ func newContext() *runtime {
 	rt.eval = rt.globalObject.property["eval"].value.(Value).value.(*object)
 	rt.globalObject.prototype = rt.global.ObjectPrototype
 
+	// B.2.6: toGMTString is the same function object as toUTCString.
+	datePrototype := rt.global.DatePrototype
+	datePrototype.property["toGMTString"] = datePrototype.property["toUTCString"]
+
 	return rt
 }
 
